@@ -491,6 +491,27 @@ func c15Run(c *fw.Ctx) {
 			continue
 		}
 		c.Class("accessory." + ct.Name)
+		// every service of the accessory (the information service included, as accessory.New builds it from an Info)
+		// holds the characteristics the metadata requires for its type
+		for si, sv := range a.Services {
+			have := map[string]bool{}
+			for _, ch := range sv.Characteristics {
+				if ch != nil {
+					have[ch.Type] = true
+				}
+			}
+			for _, m := range md.Services {
+				if minify(m.UUID) != sv.Type {
+					continue
+				}
+				for _, r := range m.RequiredCharacteristics {
+					c.Eval(1)
+					if !have[minify(r)] {
+						rep("metadata-required/accessory."+ct.Name+"/"+minify(r), fmt.Sprintf("%s: service %d (type %s) lacks required characteristic type %s", ct.Name, si, sv.Type, minify(r)))
+					}
+				}
+			}
+		}
 		if _, err := json.Marshal(a); err != nil {
 			rep("ctor-unencodable/accessory."+ct.Name, ct.Name+": "+err.Error())
 		}
@@ -663,7 +684,7 @@ func init() {
 	fw.Register(&fw.Check{
 		ID:          "C15",
 		Level:       "exploration",
-		Rule:        "depth-1 exhaustive enumeration of the finite catalog: every exported New* constructor found by go/parser in /repo's characteristic, service and accessory packages at check time is called; every characteristic and service entry of gen/metadata.json is matched by type id and compared field by field (format, permissions, unit, min/max/step with case-insensitive keys, default value type and range, required characteristics, duplicate types, Type* constants); all services and accessories are then constructed again, kept alive together and re-inspected (a constructor must not disturb objects built before it). A second worker process repeats everything in a program where application code ran first: vendor characteristics whose bounds went through float32 next to every catalog bound, vendor type ids sharing their first group with each catalog type, and every constructor called from inside a change handler. Usability: every characteristic takes and gives back both bounds of its range given as int and as float64 (locally and, when writable, from a connection) and strings / tlv8 / data payloads of 0, 1, 48, 49, 64, 65, 300 bytes; a typed field of a service / accessory constructor's result refers to the object of its type in the generic list (not to a second object while the listed one is referred to by no field). distinct_nontrivial = distinct constructors that returned a usable object",
+		Rule:        "depth-1 exhaustive enumeration of the finite catalog: every exported New* constructor found by go/parser in /repo's characteristic, service and accessory packages at check time is called; every characteristic and service entry of gen/metadata.json is matched by type id and compared field by field (format, permissions, unit, min/max/step with case-insensitive keys, default value type and range, required characteristics, duplicate types, Type* constants); all services and accessories are then constructed again, kept alive together and re-inspected (a constructor must not disturb objects built before it). A second worker process repeats everything in a program where application code ran first: vendor characteristics whose bounds went through float32 next to every catalog bound, vendor type ids sharing their first group with each catalog type, and every constructor called from inside a change handler. Every service of every accessory constructor's result holds the characteristics required for its type. Usability: every characteristic takes and gives back both bounds of its range given as int and as float64 (locally and, when writable, from a connection) and strings / tlv8 / data payloads of 0, 1, 48, 49, 64, 65, 300 bytes; a typed field of a service / accessory constructor's result refers to the object of its type in the generic list (not to a second object while the listed one is referred to by no field). distinct_nontrivial = distinct constructors that returned a usable object",
 		Shards:      func(string) int { return 2 },
 		Run:         c15Run,
 		Replay:      func(c *fw.Ctx, raw json.RawMessage) { c15Run(c) },
